@@ -25,9 +25,13 @@ def catalogue() -> list[dict]:
     out = []
     d = VERIF / "selftest"
     for p in sorted(d.glob("*.json")):
-        for m in json.loads(p.read_text()):
+        ms = json.loads(p.read_text())
+        for m in ms:
             m.setdefault("source", p.name)
             out.append(m)
+        if ms:
+            pid = ms[0]["property"]
+            out.append({"id": f"{pid.lower()}-refactor-rename-all-locals", "property": pid, "expect": "silent", "transform": "rename-locals", "source": p.name})
     return out
 
 
@@ -85,6 +89,11 @@ def run_variant(m: dict) -> dict:
             )
             # patches may touch tests/docs that are not copied: tolerate those hunks
             err = None
+        elif m.get("transform") == "rename-locals":
+            # behaviour-preserving: every local of every function renamed, whole tree re-printed
+            _copy_pkg(src, tmp)
+            pr = subprocess.run([sys.executable, str(VERIF / "tools" / "rename_locals.py"), str(tmp)], capture_output=True, text=True)
+            err = None if pr.returncode == 0 else f"rename tool failed: {pr.stderr[-200:]}"
         else:
             _copy_pkg(src, tmp)
             err = apply_edits(tmp, m)
